@@ -515,30 +515,69 @@ def r05_5(ctx):
         ctx.ob("R05.5", f"{f.name}", ok, f.loc(), "the scalar is written between begin_string and end_string (a quoted key)" if ok else "a scalar map key is written without the surrounding quotes: the output is not a JSON object key")
 
 
-def _written_literals(prog, fn, pm):
+_SKIP = object()
+
+
+def _lit_of(fn, a, live, bytes_pm):
+    """constant bytes an operand holds: a literal, a literal assigned in a live block, or a byte-slice parameter bound by
+    the caller; _SKIP for the formatter's own `indent` bytes (whitespace by contract of with_indent); None if unknown"""
+    bs = op_bytes(a)
+    if bs is not None:
+        return bs
+    l = op_local(a)
+    if l is None:
+        return None
+    sl, leaves = backward_slice(fn, [l])
+    cands = []
+    for x in sl | {l}:
+        if x in bytes_pm and not fn.defs.get(x):
+            cands.append(bytes_pm[x])
+        for d in fn.defs.get(x, []):
+            if d[0] == "stmt" and d[1] in live and d[3]["rv"]["k"] in ("use", "cast") and d[3]["rv"]["op"]["k"] == "const" and op_bytes(d[3]["rv"]["op"]) is not None:
+                cands.append(op_bytes(d[3]["rv"]["op"]))
+    if any(c is None for c in cands):
+        return None
+    if len(cands) == 1:
+        return cands[0]
+    if cands:
+        return b"|".join(sorted(set(cands)))
+    if any(lf[0] == "place" and "indent" in [e[2] for e in lf[1][1] if isinstance(e, list) and e[0] == "."] for lf in leaves):
+        return _SKIP
+    return None
+
+
+def _written_literals(prog, fn, pm, bytes_pm=None, depth=0):
+    """the constant byte strings written (write_all) on the live blocks of fn under the bool-parameter map pm, in block
+    order; a private method of the same type that the body delegates to is followed, with its byte-slice and bool
+    parameters bound to the caller's constants"""
     from ..analysis import live_blocks
+    bytes_pm = bytes_pm or {}
     live = live_blocks(fn, pm, {})
     out = []
     for b in sorted(live):
         t = fn.blocks[b]["term"]
-        if t["k"] not in ("call", "tailcall") or t["callee"].rsplit("::", 1)[-1] != "write_all":
+        if t["k"] not in ("call", "tailcall"):
             continue
-        a = t["args"][1]
-        bs = op_bytes(a)
-        if bs is None and op_local(a) is not None:
-            l = op_local(a)
-            # constants assigned in live blocks
-            sl, _ = backward_slice(fn, [l])
-            cands = []
-            for x in sl | {l}:
-                for d in fn.defs.get(x, []):
-                    if d[0] == "stmt" and d[1] in live and d[3]["rv"]["k"] in ("use", "cast") and d[3]["rv"]["op"]["k"] == "const" and op_bytes(d[3]["rv"]["op"]) is not None:
-                        cands.append(op_bytes(d[3]["rv"]["op"]))
-            if len(cands) == 1:
-                bs = cands[0]
-            elif cands:
-                bs = b"|".join(sorted(set(cands)))
-        out.append(bs)
+        if t["callee"].rsplit("::", 1)[-1] == "write_all":
+            bs = _lit_of(fn, t["args"][1], live, bytes_pm)
+            if bs is not _SKIP:
+                out.append(bs)
+            continue
+        g = prog.fns.get(t["callee"])
+        if g is not None and depth < 2 and g.impl and fn.impl and not g.impl.get("trait") and g.impl.get("self_ty") == fn.impl.get("self_ty"):
+            gb, gp = {}, {}
+            for i, a in enumerate(t["args"], start=1):
+                ty = g.locals[i]["ty"] if i < len(g.locals) else ""
+                if "[u8" in ty:
+                    gb[i] = _lit_of(fn, a, live, bytes_pm)
+                    if gb[i] is _SKIP:
+                        gb[i] = None
+                elif ty == "bool":
+                    if a["k"] == "const" and a.get("int") is not None:
+                        gp[i] = bool(int(a["int"]))
+                    elif op_local(a) in pm:
+                        gp[i] = pm[op_local(a)]
+            out += _written_literals(prog, g, gp, gb, depth + 1)
     return out
 
 
